@@ -315,6 +315,18 @@ def splice_function(u, spec, mode, canary=False, variants=(), rename=None):
                 raise LostAnchor("%s: loops %s have no @loop block (function shape changed)" % (spec.key, missing))
         for anchor, lines in spec.inserts:
             ins = "\n" + "\n".join("        " + l.strip() for l in lines) + "\n"
+            m = re.match(r"loop (\d+) before$", anchor)
+            if m:
+                # on the line before the n-th loop statement (whatever its keyword or condition looks like)
+                n = int(m.group(1))
+                if loops_gone:
+                    continue
+                if n > len(r["loops"]):
+                    raise LostAnchor("%s: @insert loop %d before: no such loop" % (spec.key, n))
+                kw = r["loops"][n - 1]["kw"]
+                ls = text.rfind("\n", 0, kw) + 1
+                edits.append((ls, ins.lstrip("\n")))
+                continue
             m = re.match(r"loop (\d+) head$", anchor)
             if m:
                 n = int(m.group(1))
